@@ -19,6 +19,7 @@ R02.4 root: the column likelihood is numpy.inner(root partial likelihoods, motif
 R02.5 rate-heterogeneity bins: the column likelihood is the bprob-weighted SUM of the per-bin column
       likelihoods (paired by zip in bin order), and its log-sum is taken after the mixture, not before.
 R02.6 site-HMM: the forward recursion multiplies the class probabilities on the left of the row-stochastic switch matrix.
+R02.8 psubs = Qd(distance), distance = length x the bin's rate.
 R02.7 (shared with C11) each child's psub is the one selected by that child's name (R11.2), index arrays
       are paired with children positionally (R11.5), and the total is sum_i counts[i] * log(lh[i]) (R11.4).
 R05.9 (shared with C05) word probabilities formed as products of monomer probabilities are renormalised: the root
@@ -312,8 +313,42 @@ def r02_6(chk):
     chk.floor("R02.6", 2, "matrix orientation and the product")
 
 
+def r02_8(chk):
+    chk.rule("R02.8", "the transition matrix of an edge is the exponentiated rate matrix evaluated at the edge's time: make_continuous_psub_defn builds psubs = CallDefn(Qd, distance) with Qd from make_Qd_defn, and make_distance_defn gives distance = length, or ProductDefn(length, <the bin's rate>) for rate-heterogeneity models -- a product, of exactly these two, under the with_rate-and-bins condition")
+    m = chk.repo.module("evolve/substitution_model.py")
+    ci = m.cls("_ContinuousSubstitutionModel")
+    f1 = ci.methods.get("make_continuous_psub_defn")
+    f2 = ci.methods.get("make_distance_defn")
+    if f1 is None or f2 is None:
+        raise AnalysisError("psub / distance definitions not found")
+    rets = [r for r in walk_no_nested(f1) if isinstance(r, ast.Return) and r.value is not None]
+    qd = {st.targets[0].id for st in walk_no_nested(f1) if isinstance(st, ast.Assign) and isinstance(st.targets[0], ast.Name) and isinstance(st.value, ast.Call) and isinstance(st.value.func, ast.Attribute) and st.value.func.attr == "make_Qd_defn"}
+    dpar = "distance" if "distance" in params_of(f1) else None
+    ok1 = bool(rets) and isinstance(rets[0].value, ast.Call) and call_name(rets[0].value) == "CallDefn" and len(rets[0].value.args) == 2 and norm(rets[0].value.args[0]) in qd and norm(rets[0].value.args[1]) == dpar
+    chk.decide(ok1, "R02.8", key(m, "_ContinuousSubstitutionModel.make_continuous_psub_defn", "psubs = Qd(distance)"), m.loc(rets[0] if rets else f1), "CallDefn(Qd, distance)", f"`{norm(rets[0].value)[:60] if rets else ''}` is not the exponentiated rate matrix called with the edge's distance")
+    prods = [st for st in walk_no_nested(f2) if isinstance(st, ast.Assign) and isinstance(st.value, ast.Call) and call_name(st.value) == "ProductDefn"]
+    lengths = {st.targets[0].id for st in walk_no_nested(f2) if isinstance(st, ast.Assign) and isinstance(st.targets[0], ast.Name) and isinstance(st.value, ast.Call) and call_name(st.value) == "LengthDefn"}
+    rates = {st.targets[0].id for st in walk_no_nested(f2) if isinstance(st, ast.Assign) and isinstance(st.targets[0], ast.Name) and isinstance(st.value, ast.Call) and isinstance(st.value.func, ast.Attribute) and st.value.func.attr == "_make_bin_param_defn" and st.value.args and norm(st.value.args[0]) == "'rate'"}
+    ok2 = False
+    detail = "no ProductDefn"
+    if prods:
+        args = [norm(a) for a in prods[0].value.args]
+        ok2 = len(args) == 2 and set(args) == (lengths | rates) and len(lengths) == 1 and len(rates) == 1
+        detail = f"ProductDefn({', '.join(args)})"
+    plain = [st for st in walk_no_nested(f2) if isinstance(st, ast.Assign) and norm(st.targets[0]) == "distance" and isinstance(st.value, ast.Name) and st.value.id in lengths]
+    guard = [i for i in walk_no_nested(f2) if isinstance(i, ast.If) and any(p is x for p in prods for st in i.body for x in ast.walk(st))]
+    gok = False
+    if guard:
+        t = guard[0].test
+        parts = {norm(v) for v in (t.values if isinstance(t, ast.BoolOp) and isinstance(t.op, ast.And) else [t])}
+        gok = "self.with_rate" in parts and bool(parts & {"bprobs is not None", "bprobs", "not bprobs is None"}) and parts <= {"self.with_rate", "bprobs is not None", "bprobs", "not bprobs is None"}
+    chk.decide(ok2 and bool(plain) and gok, "R02.8", key(m, "_ContinuousSubstitutionModel.make_distance_defn", "distance = length x bin rate"), m.loc(prods[0] if prods else f2), f"{detail} under `{norm(guard[0].test) if guard else '?'}`, else the length", f"{detail}; guard `{norm(guard[0].test) if guard else '?'}`: the time a bin's transition matrix is evaluated at is not length x that bin's rate")
+    chk.floor("R02.8", 2, "psub and distance definitions")
+
+
 def run(chk):
     r02_1(chk)
+    r02_8(chk)
     r02_6(chk)
     r02_2(chk)
     r02_3(chk)
